@@ -143,8 +143,14 @@ def solo_points(spec, url, gran="call", record=None, probe=None):
     return outs[0], pts[0]
 
 
+def plan_frozen(plan):
+    """read-only served arrays for half of the schedules (by the parity of the first preemption point), writeable for
+    the other half; the solo answers always come from a writeable application"""
+    return not plan or plan[0][1] % 2 == 0
+
+
 def check_schedule(ctx, spec, urls, plan, solo, where, gran="call"):
-    app, handler, ds = F.make_app(spec)
+    app, handler, ds = F.make_app(spec, plan_frozen(plan))
     snap = F.snapshot(ds)
     outs, pts, pre = run_schedule(app, urls, plan, gran=gran)
     case = {"oracle": "schedule", "gran": gran, "spec": spec, "urls": urls, "plan": [list(p) for p in plan]}
@@ -159,7 +165,7 @@ def check_schedule(ctx, spec, urls, plan, solo, where, gran="call"):
             break
     if not bad and F.snapshot(ds) != snap:
         ctx.oracle_fail("served dataset changed by concurrent requests", case, "snapshot differs", "unchanged",
-                        size=len(repr(spec)) + 60 * len(urls))
+                        size=150000 + len(repr(spec)) + 60 * len(urls))
         bad = True
     ctx.count(("sched", gran, repr(spec), tuple(urls), tuple(map(tuple, plan))), pre >= 1,
               tag="%s:%s:threads=%d:preemptions=%d" % (where, gran, len(urls), min(pre, 3)),
@@ -170,8 +176,8 @@ def check_schedule(ctx, spec, urls, plan, solo, where, gran="call"):
 def replay_case(c):
     spec, urls, plan = c["spec"], c["urls"], [tuple(p) for p in c["plan"]]
     gran = c.get("gran", "call")
-    solo = [F.call(F.make_app(spec)[0], u) for u in urls]
-    app, handler, ds = F.make_app(spec)
+    solo = [F.call(F.make_app(spec, False)[0], u) for u in urls]
+    app, handler, ds = F.make_app(spec, plan_frozen(plan))
     snap = F.snapshot(ds)
     rec = [[] for _ in urls]
     outs, pts, pre = run_schedule(app, urls, plan, gran=gran, record=rec)
@@ -234,6 +240,13 @@ TINY_GROUPS = [["/d.dods?s&s.i>1", "/d.dods?s.i"], ["/d.dods?a[1:2]", "/d.ascii?
 # lazy (IterData) sequences: hyperslab / selection / projection on the plain and on the ranged one
 LAZY_GROUPS = [["/d.dods?s[1:1:8]", "/d.ascii?r.g&r.j!=3"], ["/d.dods?r[1:1:8]", "/d.dods?s.i,s.w", "/d.ascii?s&s.i>1"]]
 
+# nested lazy sequences over list records and over numpy records: a selection on the inner sequence (its filter map runs
+# on the first source record) beside a plain read of the same sequence
+NEST_SCHED_SPEC = {"name": "d", "attrs": {"title": "nested-sched"},
+                   "vars": [["nseq", "nl", {}, [["j", "i4", "x"]], 3, "list", ["ml", [["u", "i4"], ["q", "i2"]], 1]],
+                            ["nseq", "nr", {}, [["h", "i4", None]], 2, "nprec", ["mr", [["c", "i4"], ["o", "f8"]], 0]]]}
+NEST_GROUPS = [["/d.dods?nl&nl.ml.u>4", "/d.dods?nl"], ["/d.ascii?nr.mr.o&nr.mr.c<7", "/d.ascii?nr[0:1]&nr.mr.c>4"]]
+
 
 class Rec(object):
     """stands in for ctx inside pool workers: records the calls, the parent replays them"""
@@ -254,7 +267,7 @@ _solo_cache = {}
 def _solo(spec, url):
     key = (repr(spec), url)
     if key not in _solo_cache:
-        _solo_cache[key] = F.call(F.make_app(spec)[0], url)
+        _solo_cache[key] = F.call(F.make_app(spec, False)[0], url)
     return _solo_cache[key]
 
 
@@ -315,9 +328,11 @@ def explore(ctx, tier, rng, specs, search=False):
     off = rng.randrange(1 << 16)
     # warm-up in the parent (imports, regex and singledispatch caches) and the points of every request
     for spec, groups, label in ((F.FIXED_SPEC, FIXED_GROUPS, "fixed"), (TINY_SPEC, TINY_GROUPS, "tiny"),
-                                (F.LAZY_SPEC, LAZY_GROUPS, "lazy")):
+                                (F.LAZY_SPEC, LAZY_GROUPS, "lazy"), (NEST_SCHED_SPEC, NEST_GROUPS, "nested")):
         for gi, urls in enumerate(groups):
-            if label == "lazy":
+            if label == "nested" and quick and gi > 0:
+                continue        # (the numpy-record pair: failing-input search and thorough tier)
+            if label in ("lazy", "nested"):
                 gi += 2         # sampled like the later fixed groups
             pts, lpts = [], []
             for u in urls:
@@ -399,15 +414,30 @@ def _profile(spec, url, labels):
     before which) one of the containers `labels` changed"""
     from props import c13_modstate as M
 
+    import time
+
     rec = []
-    state = {"n": 0, "objs": None, "last": None}
+    state = {"n": 0, "objs": None, "last": None, "spent": 0.0, "every": 1}
     hits = []
 
     def probe(t, k):
+        # re-fingerprinting a container that holds whole datasets at each of 20 k lines can take minutes: once 10 s
+        # have gone into fingerprints the probe looks at every 8th line, after 25 s at every 64th (a hit then means
+        # "changed within the last lines"; the static function targeting does not depend on the probe)
+        state["n"] += 1
+        if state["every"] > 1 and state["n"] % state["every"]:
+            return
+        t0 = time.time()
+        try:
+            _probe(t, k)
+        finally:
+            state["spent"] += time.time() - t0
+            state["every"] = 64 if state["spent"] > 25 else 8 if state["spent"] > 10 else 1
+
+    def _probe(t, k):
         if state["objs"] is None or state["n"] % 64 == 0:
             r = M.roots()
             state["objs"] = [r.get(l) for l in labels]
-        state["n"] += 1
         cur = tuple(M.fp(o) if o is not None else "<absent>" for o in state["objs"])
         if state["last"] is not None and cur != state["last"]:
             hits.append(k)
@@ -466,7 +496,8 @@ def targeted(ctx, rng, breaks, search=False, seen=()):
     cap = 20000 if search else 6000          # targeted schedules per container
     for label in sorted(by):
         funcs = set(M.functions_naming([label]))
-        groups = sorted(by[label].values(), key=lambda g: -len(g[1]))
+        # (the dataset with the most writers first, but beyond 30 writers the smaller dataset: its runs are shorter)
+        groups = sorted(by[label].values(), key=lambda g: (-min(len(g[1]), 30), len(repr(g[0]))))
         pairs = []          # (spec, a, b, both roles?)
         cands = []
         for spec, vals in groups:
